@@ -109,7 +109,7 @@ def judge(x):
             if key in last:
                 a, b = last[key], reads[-1]
             else:
-                a, b = reads[0], reads[-1]
+                a, b = reads[-2], reads[-1]     # (an earlier read may be the one-off column-layout detection)
             last[key] = reads[-1]
             exp = ref(name, percpu, snap(a), snap(b))
             got = o[1]
